@@ -16,6 +16,24 @@ EXPLANATION = ("Call-graph closure of every decode entry point (Deserialize impl
 PANIC_CALLEES = ("core::panicking::", "std::rt::begin_panic", "std::rt::panic", "core::option::expect_failed", "core::result::unwrap_failed",
                  "core::slice::index::slice_", "core::str::slice_error_fail")
 ALLOWED_PANIC_FREE = ()
+# Foreign functions that are documented to panic (or to allocate a caller-chosen amount) for some arguments and for which
+# the engine has no obligation-producing model: reaching one from a decode entry point is reported (fail closed) instead
+# of being evaluated as an opaque call.  Functions with a model (push/insert on ArrayVec, index, copy_from_slice,
+# split_at_mut, unwrap/expect, with_capacity/reserve/from_elem, abs, collect into ArrayVec) are decided by obligation.
+import re as _re
+UNMODELLED_PANICKERS = [
+    (_re.compile(r"^std::vec::Vec::(remove|swap_remove|insert|drain|split_off|extend_from_within)$"), "panics when the index / range is out of bounds"),
+    (_re.compile(r"^std::vec::Vec::(resize|resize_with)$"), "allocates a caller-chosen number of elements"),
+    (_re.compile(r"^std::collections::VecDeque::(insert|swap|drain|split_off|rotate_left|rotate_right|resize|resize_with)$"), "panics when the index is out of bounds / allocates a caller-chosen amount"),
+    (_re.compile(r"^core::slice::(split_at|rotate_left|rotate_right|clone_from_slice|swap_with_slice|swap|copy_within|windows|rchunks|rchunks_exact|chunks_mut|chunks_exact_mut|select_nth_unstable)$"),
+     "panics when the position / length argument does not fit the slice"),
+    (_re.compile(r"^arrayvec::ArrayVec::(extend|remove|swap_remove|drain)$|^arrayvec::ArrayString::(push|push_str)$|^arrayvec::ArrayVec::from_iter$"),
+     "panics when the fixed capacity is exceeded / the index is out of bounds"),
+    (_re.compile(r"::(unwrap_unchecked|unwrap_err|expect_err|unwrap_err_unchecked)$"), "panics (or is undefined behaviour) on the other variant"),
+    (_re.compile(r"^std::string::String::(insert|insert_str|remove|drain|split_off|replace_range)$|::repeat$"), "panics on a bad index / allocates a caller-chosen amount"),
+    (_re.compile(r"::(pow|next_power_of_two|ilog|ilog2|ilog10|div_euclid|rem_euclid|isqrt)$"), "integer helper that panics on overflow / zero in this build"),
+    (_re.compile(r"^std::iter::Iterator::product$"), "integer product panics on overflow in this build"),
+]
 GROWING = ("std::collections::", "std::string::String", "std::vec::Vec")
 
 
@@ -92,8 +110,18 @@ def run(rep):
                     else:
                         rep.fail("no-panic", "%s@%s" % (q.split("::")[-1], short(b)),
                                  "decode-reachable %s calls the panicking function %s" % (b.path, q), site=b.loc(t.get("ln")))
+                if not cd.get("local"):
+                    for rx, why_p in UNMODELLED_PANICKERS:
+                        if rx.search(q):
+                            n_sites += 1
+                            rep.fail("no-panic", "unmodelled:%s@%s" % (q.split("::")[-1], short(b)),
+                                     "decode-reachable %s calls %s, which %s; the analysis has no model that bounds its arguments (fail closed)" % (b.path, q, why_p),
+                                     site=b.loc(t.get("ln")))
+                            break
                 if nm in ("unwrap", "expect", "push", "insert", "index", "index_mut", "copy_from_slice", "split_at", "with_capacity",
                           "reserve", "reserve_exact", "from_elem", "remove", "swap_remove", "abs", "unwrap_unchecked"):
+                    need_eval = True
+                if nm in ("collect", "from_iter", "extend", "extend_from_slice") and fixed_capacity_involved(b, t):
                     need_eval = True
         if not need_eval or b.kind == "Closure":
             continue
@@ -161,6 +189,38 @@ def run(rep):
     rep.ok("type-graph", "fields", sample="%d fields of %d wire types: none is a Vec/String/map with a default serde codec" % (nfield, len(wm)))
     rep.assumptions += ["panics, aborts and allocations inside bincode, serde, serde_big_array, bls12_381, sha3, base64 are outside the analysed program (their documented contracts: Err on truncation, exactly N elements for BigArray)",
                         "`out of proportion to the input` is decided as: no input-controlled allocation size in crate code"]
+
+
+def unmodelled_panickers_from(prog, root):
+    """(body, terminator, callee path, reason) for every call to a listed conditional panicker in the crate-local
+    closure of `root` (shared with C17's total-sweep)."""
+    out = []
+    for b in reachable_local(prog, [root]).values():
+        for bi, bb in enumerate(b.blocks):
+            t = bb["term"]
+            if bb["cleanup"] or t["k"] != "call":
+                continue
+            cd = callee_of(prog, t)
+            if cd.get("local"):
+                continue
+            q = cd.get("qpath", "")
+            for rx, why_p in UNMODELLED_PANICKERS:
+                if rx.search(q):
+                    out.append((b, t, q, why_p))
+                    break
+    return out
+
+
+def fixed_capacity_involved(b, t):
+    """Does this collect / extend call build a fixed-capacity vector (directly or inside Result / Option)?"""
+    tys = []
+    d = t.get("dest")
+    if d is not None:
+        tys.append(b.locals[d[0]])
+    for o in t.get("args", []):
+        if o[0] in ("copy", "move"):
+            tys.append(b.locals[o[1][0]])
+    return any("ArrayVec" in ty_str(x) or "ArrayString" in ty_str(x) for x in tys if x is not None)
 
 
 def short(b):
